@@ -42,6 +42,11 @@ enum Out {
 }
 
 fn observe(dir: &Path, write_dir: Option<&Path>) -> Out {
+    observe_opts(dir, write_dir, true)
+}
+
+/// `fresh`: empty the output directory first (false = export over what an earlier build left there)
+fn observe_opts(dir: &Path, write_dir: Option<&Path>, fresh: bool) -> Out {
     let d = dir.to_path_buf();
     let w = write_dir.map(|p| p.to_path_buf());
     match std::panic::catch_unwind(move || {
@@ -77,7 +82,9 @@ fn observe(dir: &Path, write_dir: Option<&Path>) -> Out {
             }
         }
         if let Some(w) = w {
-            let _ = std::fs::remove_dir_all(&w);
+            if fresh {
+                let _ = std::fs::remove_dir_all(&w);
+            }
             if let Err(e) = infos.get_translations().write_to_dir(&w) {
                 return Out::Err(format!("write_to_dir: {e}"));
             }
@@ -550,10 +557,86 @@ fn c11(tier: Tier) -> i32 {
             }
         }
     });
+    // ---- histories: a build script exports again and again into the same directory -----------------------
+    // every sequence of <= 3 exports over 4 variants of one project (long texts, short texts, fewer keys,
+    // more keys with non-ASCII text), flat and namespaced; after every export each file must be exactly the
+    // table of the project exported last
+    {
+        let variant = |v: usize, loc: &str| -> Vec<(String, Val)> {
+            match v {
+                0 => vec![("k1".into(), st(&format!("[{loc}] a rather long first text, long enough to leave a tail"))), ("k2".into(), st(&format!("[{loc}] second text")))],
+                1 => vec![("k1".into(), st("a")), ("k2".into(), st("b"))],
+                2 => vec![("k1".into(), st(&format!("{loc}")))],
+                _ => vec![("k1".into(), st(&format!("[{loc}] \u{e9}\u{1f600} \"quoted\" \\ back"))), ("k2".into(), st("x")), ("k3".into(), s(vec![text("y"), var("v"), text("z")]))],
+            }
+        };
+        let mut seqs: Vec<Vec<usize>> = vec![];
+        for a in 0..4 {
+            seqs.push(vec![a]);
+            for b in 0..4 {
+                seqs.push(vec![a, b]);
+                for c in 0..4 {
+                    seqs.push(vec![a, b, c]);
+                }
+            }
+        }
+        let n_hist = seqs.len() * 2;
+        par_for(n_hist, |w, i| {
+            let seq = &seqs[i / 2];
+            let namespaced = i % 2 == 1;
+            let dir = root.join(format!("h{w}"));
+            let out_dir = root.join(format!("h{w}-out"));
+            let _ = std::fs::remove_dir_all(&out_dir);
+            for (step, v) in seq.iter().enumerate() {
+                let mut p;
+                if namespaced {
+                    p = Project::new(Config::simple("en", &["en", "fr"]).with_namespaces(&["n1", "n2"]));
+                    for loc in ["en", "fr"] {
+                        p.set_file(Some("n1"), loc, variant(*v, loc));
+                        p.set_file(Some("n2"), loc, variant((*v + 1) % 4, loc));
+                    }
+                } else {
+                    p = Project::new(Config::simple("en", &["en", "fr"]));
+                    for loc in ["en", "fr"] {
+                        p.set_file(None, loc, variant(*v, loc));
+                    }
+                }
+                let _ = std::fs::remove_dir_all(&dir);
+                p.materialise(&dir, JSON).unwrap();
+                rep.eval(1);
+                match observe_opts(&dir, Some(&out_dir), false) {
+                    Out::Panic(m) => rep.violation(format!("C11/vbuild/history: PANIC {m} :: exports {seq:?} step {step}"), json!({})),
+                    Out::Err(e) => rep.violation(format!("C11/vbuild/history: valid project rejected: {e} :: exports {seq:?} step {step}"), json!({})),
+                    Out::Ok(infos) => {
+                        for ((ns, loc), text) in &infos.tables {
+                            let file = match ns {
+                                Some(ns) => out_dir.join(ns).join(format!("{loc}.json")),
+                                None => out_dir.join(format!("{loc}.json")),
+                            };
+                            let written = std::fs::read(&file).unwrap_or_default();
+                            let decoded: Result<Vec<String>, _> = serde_json::from_slice(&written);
+                            if written != text[0].as_bytes() || decoded.is_err() {
+                                rep.violation(
+                                    format!(
+                                        "C11/vbuild/history: after exporting variants {:?} into one directory (namespaced={namespaced}) the file of {ns:?}/{loc} is {:?}, the table of the project exported last is {:?}",
+                                        &seq[..=step],
+                                        String::from_utf8_lossy(&written).chars().take(120).collect::<String>(),
+                                        text[0].chars().take(120).collect::<String>()
+                                    ),
+                                    json!({}),
+                                );
+                            }
+                        }
+                    }
+                }
+            }
+        });
+        rep.count("export_histories", n_hist as u64);
+    }
     rep.nontriv(strings.len() as u64);
     rep.sample(json!({"strings": ["\u{a0}", "\u{200b}\\", "\"\u{0}"]}));
     let mut cov = serde_json::Map::new();
-    cov.insert("rule".into(), json!("the same Unicode sweep as the L1 engine (every scalar value in thorough; all below U+3000, every 7th above and the edges in quick; all pairs over 14 hostile characters; an HTML/JS-hostile mix), flat two-locale and nested + namespaced layouts; TranslationsInfos::parse_at_dir -> get_translations(): translations_formatter() text == bytes written by write_to_dir; the file must parse with serde_json (strict JSON) to a list of strings, each a literal of the project, and for the flat default locale exactly the literal set"));
+    cov.insert("rule".into(), json!("the same Unicode sweep as the L1 engine (every scalar value in thorough; all below U+3000, every 7th above and the edges in quick; all pairs over 14 hostile characters; an HTML/JS-hostile mix), flat two-locale and nested + namespaced layouts; TranslationsInfos::parse_at_dir -> get_translations(): translations_formatter() text == bytes written by write_to_dir; the file must parse with serde_json (strict JSON) to a list of strings, each a literal of the project, and for the flat default locale exactly the literal set; histories: every sequence of <= 3 exports over 4 variants of one project (long / short texts, fewer / more keys) into the SAME output directory, flat and namespaced: after every export each file is byte for byte the table of the project exported last and strict JSON"));
     cov.insert("exhaustive".into(), json!(tier == Tier::Thorough));
     let _ = std::fs::remove_dir_all(&root);
     rep.finish(cov, &["serde_json is the reference JSON decoder"])
